@@ -8,6 +8,7 @@ def run(ctx):
     nv.setup_env(jit=False)
     import corr_engine as ce
     import regress
+    from nucs.propagators.propagators import ALG_AFFINE_LEQ as ALG_AFFINE_LEQ_IDX
 
     report = ctx["report"]
     rng = random.Random(ctx["seed"] + 1201)
@@ -62,6 +63,27 @@ def run(ctx):
                         viol.append(dict(case, kind="split", detail="a sub-problem changed variables or constraints"))
                     if (p.shr_domains_lst, p.dom_indices_lst, p.dom_offsets_lst) != before:
                         viol.append(dict(case, kind="split", detail="split modified the original problem"))
+                    # the parts are problems of their own: refining ONE of them through the public API (a further constraint, an
+                    # auxiliary variable, a narrowed domain) must leave the original and the other parts as they were (S163: parts
+                    # that share their lists with the original)
+                    if parts and rng.random() < 0.5:
+                        snap = lambda q: copy.deepcopy((q.shr_domains_lst, q.dom_indices_lst, q.dom_offsets_lst, q.propagators,
+                                                        q.propagator_nb))
+                        which = rng.randrange(len(parts))
+                        others = [q for j, q in enumerate(parts) if j != which]
+                        b_orig, b_others = snap(p), [snap(q) for q in others]
+                        try:
+                            w = parts[which].add_variable((0, 1))
+                            parts[which].add_propagator(([w, 0], ALG_AFFINE_LEQ_IDX, [1, -1, 0]))
+                            if isinstance(parts[which].shr_domains_lst[0], list):
+                                parts[which].shr_domains_lst[0][1] = parts[which].shr_domains_lst[0][0]
+                        except Exception as e:  # noqa: BLE001
+                            viol.append(dict(case, kind="split", detail=f"a part cannot be refined: {type(e).__name__}: {e}"))
+                        report.count("refine_a_part", "done")
+                        if snap(p) != b_orig:
+                            viol.append(dict(case, kind="split", detail=f"refining part {which} after the split changed the ORIGINAL problem (shared lists)"))
+                        if [snap(q) for q in others] != b_others:
+                            viol.append(dict(case, kind="split", detail=f"refining part {which} after the split changed another part (shared lists)"))
     answers = nv.Model().ask([q for q, _, _ in reqs])
     for (q, impl, case), ans in zip(reqs, answers):
         if case["k"] >= 1 and impl != ans:
